@@ -22,11 +22,11 @@ def layout_obs(ctx):
                     if ctx.quick and m > 8 and nrows in (1, 2):
                         continue
                     obs.append(Ob("extract/contiguous_%s/m=%d/blk=%d/rows=%d" % (v, m, blk, nrows), H, "h_extract",
-                                  {"FN": "reim4_extract_1blk_from_contiguous_reim_" + v, "KINDX": 1, "M": m, "BLK": blk, "NROWS": nrows}, LIBS, unwind=260,
+                                  {"FN": "reim4_extract_1blk_from_contiguous_reim_" + v, "KINDX": 1, "M": m, "BLK": blk, "NROWS": nrows}, LIBS, unwind=max(260, 8 * m + 40),
                                   family="reim4_extract_1blk_from_contiguous_reim_" + v))
                     obs.append(Ob("extract/contiguous_sl_%s/m=%d/blk=%d/rows=%d" % (v, m, blk, nrows), H, "h_extract",
                                   {"FN": "reim4_extract_1blk_from_contiguous_reim_sl_" + v, "KINDX": 2, "M": m, "BLK": blk, "NROWS": nrows, "SL": 2 * m + 4}, LIBS,
-                                  unwind=260, family="reim4_extract_1blk_from_contiguous_reim_sl_" + v))
+                                  unwind=max(260, 12 * m + 40), family="reim4_extract_1blk_from_contiguous_reim_sl_" + v))
     for m in ms:
         for avx in (0, 1):
             obs.append(Ob("cplx-roundtrip/init/m=%d/avx=%d" % (m, avx), H, "h_cplx", {"M": m, "AVX": avx}, LIBS, unwind=140, family="reim4_from_cplx / reim4_to_cplx via init",
